@@ -30,7 +30,7 @@ def hexarg(i):
 
 
 def intarg(i):
-    return [(Token.Constant, str(i.operands[0]))]
+    return [(Token.Constant, "%d" % i.operands[0])]
 
 
 def adrarg(i):
